@@ -130,6 +130,8 @@ Section TypeB.
     end.
 
   Definition neg_one : V := neg N (dyad N 1 0).
+  Definition pi_ : V := dyad N 884279719003555 (-48).          (* math.pi *)
+  Definition half_pi : V := dyad N 884279719003555 (-49).      (* HALF_PI = math.pi / 2.0 *)
 
   Definition fstep (s : state) (o : fop) : state * out :=
     match o with
@@ -163,23 +165,58 @@ Section TypeB.
           let r_l := match r_xy with Some r => nums r | None => map (fun _ => MN (of_Z N 0)) x end in
           let uy_l := match u_y with Some u => nums u | None => [] end in
           let ev := ev_in s in let vo := varof_in s in let co := covof_in s in
-          (* a_b = line_fit_wls(x, y, u_y).a_b : only its success matters below (alpha0 feeds the oracle) *)
+          (* a_b = line_fit_wls(x, y, u_y).a_b ; b0 = value(a_b[1]) *)
           let init :=
             match a_b with
-            | Some _ => Ok s
+            | Some (_, b0) => Ok (s, b0)
             | None =>
                 '(a, b, _, _) <- g_line_fit_wls N ev vo co xm ym (option_map nums u_y) ;;
-                Ok (match u_y with None => touch_all s y | Some _ => s end)
+                b0 <- mvalue N ev b ;;
+                Ok (match u_y with None => touch_all s y | Some _ => s end, b0)
             end in
           match init with
           | Err e => fail N s e
-          | Ok s0 =>
+          | Ok (s0, b0) =>
             let r :=
               (* reading .v fills the _u cache, and a cached object answers u*u: each constructor sees
                  the caches left by the reads before it *)
               '(cx_u, cy_u, cx, cy, cu2x, cu2y, ccov) <- g_ChiSq_init N (ev_in s0) (varof_in s0) (covof_in s0) xm ym (option_map nums u_x) uy_l r_l ;;
               let s1 := match u_x with None => touch_all (touch_all s0 x) y | Some _ => s0 end in
-              (* _dbrent : oracle; it created n_tmp elementary uncertain numbers *)
+              (* the search interval handed to the minimiser: alpha0 = atan(b0), x1/x2 = alpha0 -+ pi/2; chi-squared
+                 has period pi, so this brackets a minimum only if chi_sq(alpha0) is below the values at the ends;
+                 otherwise the interval is centred on the least value of a 36-point grid over one period *)
+              alpha0 <- libm1 N F_atan b0 ;;
+              let x1 := sub N alpha0 half_pi in
+              let x2 := add N alpha0 half_pi in
+              (* value(chi_sq(constant(c))): ChiSq.arrays / __call__ (gen: g_ChiSq_arrays, g_ChiSq_call) with the four
+                 trigonometric values evaluated once and shared (the same float operations; the tree of g_ChiSq_call
+                 repeats sin(2c), cos(2c) in every g_k, and 39 such evaluations dominate the run time otherwise) *)
+              let chi_at := fun c : V =>
+                let i0 := length (s_slots s1) in
+                let sc := push N s1 (SReal (mk_constant N c None) None) in
+                let al := ME (EVar N i0) in
+                two_al <- mbin N B_mul (MN (dyad N 2 0)) al ;;
+                t_sa <- mun N U_sin al ;; t_s2 <- mun N U_sin two_al ;; t_ca <- mun N U_cos al ;; t_c2 <- mun N U_cos two_al ;;
+                o_sa <- eval_obj sc t_sa ;; o_s2 <- eval_obj sc t_s2 ;; o_ca <- eval_obj sc t_ca ;; o_c2 <- eval_obj sc t_c2 ;;
+                let sc4 := push N (push N (push N (push N sc (SReal o_sa None)) (SReal o_s2 None)) (SReal o_ca None)) (SReal o_c2 None) in
+                let r i := ME (EVar N (i0 + i)) in
+                '(vk, _, _, gk, _, _, _, _) <- g_arrays N (ev_in sc4) (varof_in sc4) (covof_in sc4) (r 1%nat) (r 3%nat) (r 2%nat) (r 4%nat)
+                                                       cx cy cu2x cu2y ccov ;;
+                t <- msum_with N (fun '(v, g) => t1 <- mbin N B_pow v (MN (of_Z N 2)) ;; mbin N B_div t1 g) (combine vk gk) ;;
+                mvalue N (ev_in sc4) t in
+              c0 <- chi_at alpha0 ;;
+              c1 <- chi_at x1 ;;
+              brackets <- (if ltb N c0 c1 then c2 <- chi_at x2 ;; Ok (ltb N c0 c2) else Ok false) ;;
+              '(alpha0', x1', x2') <-
+                (if brackets : bool then Ok (alpha0, x1, x2)
+                 else
+                   let pt := fun i : Z => q <- div N (mul N (of_Z N i) pi_) (of_Z N 36) ;; Ok (add N x1 q) in
+                   g0 <- pt 0%Z ;; f0 <- chi_at g0 ;;
+                   best <- fold_left (fun acc i => '(gb, fb) <- acc ;; g <- pt i ;; f <- chi_at g ;;
+                                                   Ok (if ltb N f fb then (g, f) else (gb, fb)))
+                                     (map Z.of_nat (seq 1 35)) (Ok (g0, f0)) ;;
+                   Ok (fst best, sub N (fst best) half_pi, add N (fst best) half_pi)) ;;
+              (* _dbrent(x1', alpha0', x2') : oracle; it created n_tmp elementary uncertain numbers *)
               let s2 := mkS (s_ctx s1) (s_ne s1 + n_tmp)%Z (s_ni s1) (s_leaves s1) (s_nodes s1) (s_ens s1) (s_slots s1) in
               '(dx, dy, du2x, du2y, dcov) <- g_dChiSq_dalpha_init N (ev_in s2) (varof_in s2) (covof_in s2) xm ym (option_map nums u_x) uy_l r_l ;;
               (* alpha = ureal(alpha1, 1) *)
@@ -207,7 +244,7 @@ Section TypeB.
               chi <- g_ChiSq_call N (ev_in s6) (varof_in s6) (covof_in s6) cx_u cy_u cx cy cu2x cu2y ccov (ME (EVar N i_c)) ;;
               oa <- eval_obj s6 a ;; ob <- eval_obj s6 b ;; ssr <- mvalue N (ev_in s6) chi ;;
               Ok (push N (push N (push N s6 (SReal oa None)) (SReal ob None)) (SNum ssr),
-                  OutList [dump N oa; dump N ob; OutVal ssr]) in
+                  OutList [dump N oa; dump N ob; OutVal ssr; OutVal x1'; OutVal alpha0'; OutVal x2']) in
             match r with
             | Ok so => so
             | Err e => fail N s e
